@@ -1,4 +1,6 @@
 import XmpProofs.MixLinear
+import XmpProofs.MixKernel
+import XmpProofs.MixKernelPaula
 /-!
 # C14 — The mixer is linear: mute means silence, channels superpose, separation mirrors
 
@@ -21,6 +23,19 @@ shape, src/virtual.c mute rule, src/player.c volume / pan tails).
 * `C14_separation*` — separation 0 ⇒ `vol_l = vol_r` and identical left/right frames for a
   whole voice tick; `mix ↦ -mix` negates the pan (C division is odd), swaps `(vol_l, vol_r)`
   and swaps the left/right frames and state of a whole voice tick.
+* `C14_kernel_*` — the same facts for the **concrete kernels of src/mix_all.c** (bit-exact model
+  `XmpModel/MixKernel.lean`, all 40 `MIXER(...)` functions through the tables of mixer.c):
+  a kernel call leaves `buffer + contribution(voice, arguments)` and a filter memory that do not
+  depend on the buffer (`C14_kernel_adds`), hence ticks made of real kernel calls superpose
+  exactly, in any order (`C14_kernel_superposition`, `_order_independent`, `_solo_independent`);
+  zero levels ⇒ the buffer is untouched (`C14_kernel_silence`); every added word is bounded by
+  `sampleBound · level` (`C14_kernel_bound`) and fits a C `int` for 16-bit levels
+  (`C14_kernel_fits`); the accumulator holds the true integer sum while
+  `voices · sampleBound · level < 2^31` (`C14_kernel_no_wrap`, instances for the voice limit) —
+  beyond that it wraps (`C14_kernel_wrap_possible`) and superposition holds modulo 2^32 only;
+  exchanging the left/right levels and ramps exchanges the left/right words
+  (`C14_kernel_mirror`, `_mirror_stereo`), equal levels give equal words (`C14_kernel_center`); the abstract kernel
+  of the tick model is a proved abstraction of every real kernel (`C14_kernel_refines`).
 -/
 namespace Xmp.MixLinear
 open Xmp.Gen.MixLinearConsts
@@ -385,3 +400,337 @@ example :
     ∧ (voiceTick cfg st i).1 ≠ swapF (voiceTick cfg st i).1 := by decide
 
 end Xmp.MixLinear
+
+/-! ## The concrete kernels of src/mix_all.c -/
+namespace Xmp.MixKernel
+open Xmp.Gen.MixKernelConsts
+open Xmp.MixLinear
+
+/-- **A real kernel only adds**: after `libxmp_mix_*(vi, buffer, count, vl, vr, step, ramp, delta_l,
+delta_r)` the buffer is `buffer_before + contribution` (32-bit wrapping, word by word; words beyond
+`count` frames untouched) where the contribution and the filter memory written back are functions of
+the voice and the scalar arguments alone — for every one of the 40 kernels (`k` arbitrary), every
+voice, every buffer content. -/
+theorem C14_kernel_adds (k : KSpec) (v : KVoice) (a : KArgs) (buf : Buf) :
+    (run k v a buf).1 = addInto buf (contribAcc k v a) ∧ (run k v a buf).2 = fltAfter k v a := by
+  rw [run_eq]; exact ⟨rfl, rfl⟩
+
+/-- the contribution has exactly `count` frames -/
+theorem C14_kernel_length (k : KSpec) (v : KVoice) (a : KArgs) :
+    (contrib k v a).length = a.count * (if k.stereoOut then 2 else 1) := contrib_length k v a
+
+/-- **Superposition for the real kernels**: a tick buffer produced by any sequence of kernel calls
+(any kernels, voices, offsets) is exactly the wrapping sum of the buffers each call produces alone. -/
+theorem C14_kernel_superposition (n : Nat) (cs : List Call) :
+    mixCalls n cs = bsum n (cs.map fun c => mixCalls n [c]) := by
+  rw [mixCalls_eq_tick, C14_superposition, List.map_map]
+  congr 1
+  apply List.map_congr_left
+  intro c _
+  simp [mixCalls_eq_tick, solo]
+
+/-- … in any order of the calls -/
+theorem C14_kernel_order_independent (n : Nat) (cs ds : List Call) (h : cs.Perm ds) :
+    mixCalls n cs = mixCalls n ds := by
+  rw [mixCalls_eq_tick, mixCalls_eq_tick]
+  exact C14_superposition_perm n _ _ (h.map _)
+
+/-- … and one call adds its solo buffer to the mix of all the others, wherever it stands -/
+theorem C14_kernel_solo_independent (n : Nat) (as bs : List Call) (c : Call) :
+    mixCalls n (as ++ c :: bs) = addInto (mixCalls n (as ++ bs)) (mixCalls n [c]) := by
+  simp only [mixCalls_eq_tick, List.map_append, List.map_cons, List.map_nil]
+  exact C14_solo_independent n _ _ _
+
+set_option maxRecDepth 100000 in
+/-- non-trivial instance: a filtered spline kernel on a stereo sample and a ramping linear kernel,
+overlapping in the buffer, in both orders -/
+example :
+    let smp : Int → Int := fun i => if i % 3 = 0 then 30000 else if i % 3 = 1 then -32768 else 12345
+    let v1 : KVoice := { smp := smp, pos := 5, frac := 40000, oldVl := 100000, oldVr := -90000,
+                         flt := { l1 := 1000000, l2 := -2000000, r1 := 5, r2 := 6, a0 := 1500000, b0 := 3000000, b1 := -400000 } }
+    let v2 : KVoice := { smp := smp, pos := 9, frac := 123, oldVl := 0, oldVr := 65536, flt := {} }
+    let c1 : Call := { spec := specOf 2 15, voice := v1, args := { count := 3, vl := 700, vr := -300, step := 70000, ramp := 1, dl := 2560, dr := -2560 }, off := 2 }
+    let c2 : Call := { spec := specOf 1 4, voice := v2, args := { count := 4, vl := 1000, vr := 1000, step := -30000, ramp := 2, dl := 300, dr := 0 }, off := 0 }
+    mixCalls 10 [c1, c2] = mixCalls 10 [c2, c1] ∧ mixCalls 10 [c1, c2] ≠ mixCalls 10 [c1] ∧ mixCalls 10 [c1] ≠ zeros 10 := by
+  decide
+
+/-- **Silence on the kernel level**: fixed levels 0 and a ramp that stays at level 0 (or no
+`LOOP_AC` part) ⇒ the call leaves every buffer unchanged. -/
+theorem C14_kernel_silence (k : KSpec) (v : KVoice) (a : KArgs) (hl : a.vl = 0) (hr : a.vr = 0)
+    (hramp : 0 < nAC k a → (v.oldVl >>> (8 : Nat) = 0 ∧ a.dl = 0) ∧ (v.oldVr >>> (8 : Nat) = 0 ∧ a.dr = 0))
+    (buf : Buf) : (run k v a buf).1 = buf := by
+  have hz : ∀ w ∈ contrib k v a, w = 0 := by
+    refine loop_zero k v a hl hr a.count (nAC k a) (St.init k v) ?_
+    have e : (St.init k v).oldVl = v.oldVl ∧ (St.init k v).oldVr = v.oldVr := by
+      unfold St.init; split <;> simp [nearestRound, advance]
+    rw [e.1, e.2]
+    exact hramp
+  have : contribAcc k v a = zeros (contrib k v a).length := by
+    unfold contribAcc zeros
+    apply List.ext_getElem
+    · simp
+    · intro i h1 h2
+      simp only [List.getElem_map, List.getElem_replicate]
+      rw [hz _ (List.getElem_mem _)]
+      rfl
+  rw [(C14_kernel_adds k v a buf).1, this, addInto_zeros]
+
+/-- in particular whenever the call has no ramp part (`ramp ≥ count`, or a nearest-neighbour kernel) -/
+theorem C14_kernel_silence_noramp (k : KSpec) (v : KVoice) (a : KArgs) (hl : a.vl = 0) (hr : a.vr = 0)
+    (hn : nAC k a = 0) (buf : Buf) : (run k v a buf).1 = buf :=
+  C14_kernel_silence k v a hl hr (by omega) buf
+
+set_option maxRecDepth 100000 in
+example :
+    let v : KVoice := {
+      smp := fun i => 100 * i - 7, pos := 3, frac := 999, oldVl := 255, oldVr := 17,
+      flt := { l1 := 77777, l2 := -5, r1 := 0, r2 := 0, a0 := 4000000, b0 := 100000, b1 := -90000 } }
+    (run (specOf 2 13) v { count := 4, vl := 0, vr := 0, step := 98765, ramp := 1, dl := 0, dr := 0 }
+        [1#32, 2#32, 3#32, 4#32, 5#32, 6#32, 7#32, 8#32, 9#32]).1
+      = [1#32, 2#32, 3#32, 4#32, 5#32, 6#32, 7#32, 8#32, 9#32] := by decide
+
+/-- **Bound of the contribution**: with sample memory of the element type of the kernel, a 16-bit
+fraction, fixed levels and ramping levels within `±L`, every word a kernel adds is within
+`±(sampleBound k · L)`, where `sampleBound` = 32768 (nearest, linear), 40960 (spline: the coefficient
+mass of the generated table is ≤ 1.25), 65536 (filtered kernels: `MIX_FILTER_CLAMP`). -/
+theorem C14_kernel_bound (k : KSpec) (v : KVoice) (a : KArgs) (hs : SmpRange k v.smp) (L : Int)
+    (hfrac : k.interp = .nearest ∨ (0 ≤ v.frac ∧ v.frac < 65536))
+    (hvl : -L ≤ a.vl ∧ a.vl ≤ L) (hvr : k.stereoOut = true → -L ≤ a.vr ∧ a.vr ≤ L)
+    (hramp : ∀ j : Nat, j < nAC k a →
+      (-L ≤ (v.oldVl + j * a.dl) >>> (8 : Nat) ∧ (v.oldVl + j * a.dl) >>> (8 : Nat) ≤ L) ∧
+      (k.stereoOut = true → -L ≤ (v.oldVr + j * a.dr) >>> (8 : Nat) ∧ (v.oldVr + j * a.dr) >>> (8 : Nat) ≤ L)) :
+    ∀ w ∈ contrib k v a, -(sampleBound k * L) ≤ w ∧ w ≤ sampleBound k * L :=
+  contrib_bound k v a hs L hfrac hvl hvr hramp
+
+/-- the fraction the kernel computes from a non-negative `vi->pos` is a 16-bit value -/
+theorem C14_kernel_frac_range (m e : Int) (hm : 0 ≤ m) : 0 ≤ posFrac m e ∧ posFrac m e < 65536 :=
+  posFrac_range m e hm
+
+/-- **No hidden C overflow**: for 16-bit levels every product `sample · level` handed to `MIX_OUT`
+fits a C `int` (so does every intermediate value of the interpolation and the filter:
+`lerp_product_fits`, `spline_acc_fits`, `preamp_fits`, `filter_sum_fits` in XmpProofs/MixKernel.lean);
+the only operation that can leave the `int` range is the accumulation `*(buffer++) += …`. -/
+theorem C14_kernel_fits (k : KSpec) (v : KVoice) (a : KArgs) (hs : SmpRange k v.smp)
+    (hfrac : k.interp = .nearest ∨ (0 ≤ v.frac ∧ v.frac < 65536))
+    (hvl : -32767 ≤ a.vl ∧ a.vl ≤ 32767) (hvr : k.stereoOut = true → -32767 ≤ a.vr ∧ a.vr ≤ 32767)
+    (hramp : ∀ j : Nat, j < nAC k a →
+      (-32767 ≤ (v.oldVl + j * a.dl) >>> (8 : Nat) ∧ (v.oldVl + j * a.dl) >>> (8 : Nat) ≤ 32767) ∧
+      (k.stereoOut = true → -32767 ≤ (v.oldVr + j * a.dr) >>> (8 : Nat) ∧ (v.oldVr + j * a.dr) >>> (8 : Nat) ≤ 32767)) :
+    ∀ w ∈ contrib k v a, -(2 ^ 31) ≤ w ∧ w < 2 ^ 31 :=
+  contrib_fits_int32 k v a hs hfrac hvl hvr hramp
+
+/-- the bound is attained: a full-scale negative 8-bit sample through the nearest-neighbour kernel -/
+example : contrib (specOf 0 0) { smp := fun _ => -128, pos := 0, frac := 0, oldVl := 0, oldVr := 0, flt := {} }
+    { count := 2, vl := 1024, vr := 0, step := 65536, ramp := 2, dl := 0, dr := 0 } = [-(32768 * 1024), -(32768 * 1024)] := by decide
+
+/-- **The accumulator holds the true integer sum** of a tick made of `N` kernel calls whose words
+are bounded by `B`, whenever `N · B < 2^31`: no wrap-around can occur.  With `C14_kernel_bound`,
+`B = sampleBound · L`. -/
+theorem C14_kernel_no_wrap (n : Nat) (cs : List Call) (B : Int) (h0 : 0 ≤ B)
+    (hB : ∀ c ∈ cs, ∀ w ∈ contrib c.spec c.voice c.args, -B ≤ w ∧ w ≤ B)
+    (hN : cs.length * B < 2 ^ 31) (i : Nat) (hi : i < n) :
+    ((mixCalls n cs).getD i 0).toInt = (cs.map fun c => c.wordAt i).sum := by
+  rw [mixCalls_eq_tick, C14_superposition_pointwise n _ i hi, List.map_map]
+  have e : (cs.map ((fun c : Buf => c.getD i 0) ∘ Call.contrib)) = (cs.map fun c => c.wordAt i).map toAcc := by
+    rw [List.map_map]
+    apply List.map_congr_left
+    intro c _
+    exact Call.contrib_getD c i
+  rw [e]
+  apply accSum_exact _ B
+  · intro w hw
+    obtain ⟨c, hc, rfl⟩ := List.mem_map.mp hw
+    exact Call.wordAt_bound c B h0 (hB c hc) i
+  · simpa using hN
+
+/-- … and only the calls that really add something to word `i` count: in the voice loop the spans of one
+voice are disjoint, so at most one kernel call per voice touches a given word — `N` is bounded by the
+number of voices mixed in the tick (`p->virt.maxvoc`, default `SMIX_NUMVOC`). -/
+theorem C14_kernel_no_wrap_voices (n : Nat) (cs : List Call) (B : Int) (h0 : 0 ≤ B)
+    (hB : ∀ c ∈ cs, ∀ w ∈ contrib c.spec c.voice c.args, -B ≤ w ∧ w ≤ B) (i : Nat) (hi : i < n)
+    (hN : (cs.filter fun c => c.wordAt i ≠ 0).length * B < 2 ^ 31) :
+    ((mixCalls n cs).getD i 0).toInt = (cs.map fun c => c.wordAt i).sum := by
+  rw [mixCalls_eq_tick, C14_superposition_pointwise n _ i hi, List.map_map]
+  have e : (cs.map ((fun c : Buf => c.getD i 0) ∘ Call.contrib)) = (cs.map fun c => c.wordAt i).map toAcc := by
+    rw [List.map_map]
+    apply List.map_congr_left
+    intro c _
+    exact Call.contrib_getD c i
+  rw [e]
+  apply accSum_exact_nz _ B h0
+  · intro w hw
+    obtain ⟨c, hc, rfl⟩ := List.mem_map.mp hw
+    exact Call.wordAt_bound c B h0 (hB c hc) i
+  · have : ((cs.map fun c => c.wordAt i).filter (· ≠ 0)).length = (cs.filter fun c => c.wordAt i ≠ 0).length := by
+      rw [List.filter_map, List.length_map]
+      rfl
+    rw [this]
+    exact hN
+
+/-- **The levels the voice loop hands to the kernels are bounded by the voice volume**: for every pan the
+player produces (−128 … 128, or surround) `|vol_l >> 8|, |vol_r >> 8| ≤ V` when `|vol| ≤ V` (`vol` is
+`vi->vol` after the mix-volume scaling `mixVol`), and the ramping level `old_v + j·delta` stays between
+the previous and the new `vol_l` during the `rampsize` ramp frames. -/
+theorem C14_kernel_levels (vol pan V : Int) (hv : -V ≤ vol ∧ vol ≤ V)
+    (hp : (-128 ≤ pan ∧ pan ≤ 128) ∨ pan = PAN_SURROUND) (old : Int) (r j : Nat) (hr : 0 < r) (hj : j ≤ r) :
+    ((-V ≤ level (volLR vol pan).1 ∧ level (volLR vol pan).1 ≤ V) ∧ (-V ≤ level (volLR vol pan).2 ∧ level (volLR vol pan).2 ≤ V)) ∧
+    (min old (volLR vol pan).1 ≤ old + j * rampDelta (volLR vol pan).1 old r ∧
+     old + j * rampDelta (volLR vol pan).1 old r ≤ max old (volLR vol pan).1) :=
+  ⟨level_bound vol pan V hv hp, ramp_between old _ r j hr hj⟩
+
+/-- **The anticlick ramp adds at most the residue**: every frame `do_anticlick` adds lies between 0 and
+`sleft` / `sright` (the last word the voice added, itself bounded by `C14_kernel_bound`), so a voice's total
+share of an accumulator word is bounded by its kernel word plus its residue. -/
+theorem C14_anticlick_bound (count : Nat) (sl sr : Int) :
+    ∀ p ∈ anticlickRamp count sl sr,
+      (min sl 0 ≤ p.1 ∧ p.1 ≤ max sl 0) ∧ (min sr 0 ≤ p.2 ∧ p.2 ≤ max sr 0) := anticlick_bound count sl sr
+
+/-- Instances of `N · sampleBound · L < 2^31` (one kernel call per voice and buffer word):
+* the default voice limit `SMIX_NUMVOC` = 128 with filtered kernels: levels up to 255;
+* nominal full-scale voice volume 1024 (level ≤ 1024): 63 unfiltered nearest/linear voices, 31 filtered;
+* master volume 200 % (level ≤ 2048): 31 unfiltered, 15 filtered voices. -/
+theorem C14_kernel_no_wrap_instances :
+    (smixNumVoc : Int) * (65536 * 255) < 2 ^ 31 ∧
+    (63 : Int) * (32768 * 1024) < 2 ^ 31 ∧ (31 : Int) * (65536 * 1024) < 2 ^ 31 ∧
+    (31 : Int) * (32768 * 2048) < 2 ^ 31 ∧ (15 : Int) * (65536 * 2048) < 2 ^ 31 := by decide
+
+set_option maxRecDepth 100000 in
+/-- **Beyond the limit the accumulator wraps**: 65 voices each adding the full-scale positive word
+`32767 · 1024` to one accumulator word leave a negative value — superposition then holds modulo 2^32
+only (`C14_kernel_superposition`), and the C expression `*(buffer++) += …` overflows a signed `int`. -/
+theorem C14_kernel_wrap_possible :
+    (accSum ((List.replicate 65 (32767 * 1024 : Int)).map toAcc)).toInt ≠ (List.replicate 65 (32767 * 1024 : Int)).sum ∧
+    (accSum ((List.replicate 65 (32767 * 1024 : Int)).map toAcc)).toInt < 0 := by decide
+
+/-- **The abstract kernel of the tick model is what every real kernel computes**: the contribution
+of `libxmp_mix_*` equals `MixLinear.kernel` (sample × level, ramping `old_v >> 8` during the first
+`count - ramp` frames — the shape `voiceTick` and the tick-level theorems `C14_silence_voice`,
+`C14_separation_mirror_tick` are stated over) applied to the frames `frames k v a`, which are computed
+from the voice's sample window, position, step and filter memory alone (no level, no ramp, no buffer). -/
+theorem C14_kernel_refines (k : KSpec) (v : KVoice) (a : KArgs) :
+    contribAcc k v a =
+      if k.stereoOut then interleave (MixLinear.kernel (absArgs k v a) (frames k v a))
+      else monoBuf (MixLinear.kernel (absArgs k v a) (frames k v a)) := by
+  unfold contribAcc
+  rw [contrib_eq_kernel]
+  generalize MixLinear.kernel (absArgs k v a) (frames k v a) = fr
+  cases k.stereoOut
+  · simp [wordsOf, monoBuf]
+  · simp only [wordsOf, if_true]
+    induction fr with
+    | nil => rfl
+    | cons p r ih => obtain ⟨l, r'⟩ := p; simp [interleave, ih]
+
+/-- **Mirror on the kernel level** (mono sample, stereo output): with `(vl, vr)`, `(old_vl, old_vr)`,
+`(delta_l, delta_r)` exchanged the kernel adds the same frames with left and right exchanged and
+writes back the same filter memory. -/
+theorem C14_kernel_mirror (k : KSpec) (v : KVoice) (a : KArgs) (hm : k.stereoSmp = false) (ho : k.stereoOut = true) :
+    contrib k v.mirror a.mirror = swapPairs (contrib k v a) ∧ fltAfter k v.mirror a.mirror = fltAfter k v a :=
+  contrib_mirror k v a hm ho
+
+/-- … and for **stereo samples** (beyond the property, which excludes them): with the two sample channels, the
+levels, the ramp memory and deltas and the filter memory exchanged, the kernel adds the left/right-exchanged
+frames and writes back the exchanged filter memory — so the mirror holds for all 20 stereo-output kernels. -/
+theorem C14_kernel_mirror_stereo (k : KSpec) (v : KVoice) (a : KArgs) (hst : k.stereoSmp = true) (ho : k.stereoOut = true) :
+    contrib k v.mirrorS a.mirror = swapPairs (contrib k v a) ∧ fltAfter k v.mirrorS a.mirror = (fltAfter k v a).swapLR :=
+  contrib_mirrorS k v a hst ho
+
+/-- **Centre**: equal left/right levels, ramp memory and ramp deltas (pan 0, i.e. separation 0)
+⇒ the left and right word of every frame are equal. -/
+theorem C14_kernel_center (k : KSpec) (v : KVoice) (a : KArgs) (hm : k.stereoSmp = false) (ho : k.stereoOut = true)
+    (hv : a.vl = a.vr) (hd : a.dl = a.dr) (ho' : v.oldVl = v.oldVr) :
+    swapPairs (contrib k v a) = contrib k v a := by
+  have h := (C14_kernel_mirror k v a hm ho).1
+  have e1 : v.mirror = v := by cases v; simp_all [KVoice.mirror]
+  have e2 : a.mirror = a := by cases a; simp_all [KArgs.mirror]
+  rw [e1, e2] at h
+  exact h.symm
+
+set_option maxRecDepth 100000 in
+example :
+    let v : KVoice := { smp := fun i => 1000 * i, pos := 2, frac := 30000, oldVl := 70000, oldVr := -5000, flt := {} }
+    let a : KArgs := { count := 3, vl := 900, vr := 100, step := 50000, ramp := 1, dl := 512, dr := -256 }
+    contrib (specOf 2 5) v.mirror a.mirror = swapPairs (contrib (specOf 2 5) v a) ∧
+    contrib (specOf 2 5) v a ≠ swapPairs (contrib (specOf 2 5) v a) := by decide
+
+end Xmp.MixKernel
+
+/-! ## The Paula (A500) kernels of src/mix_paula.c -/
+namespace Xmp.MixKernel.Paula
+open Xmp.MixLinear
+open Xmp.MixKernel (swapPairs)
+
+/-- **A real Paula kernel only adds**: buffer after = buffer before + contribution, where the contribution
+and the Paula state written back (`global_output_level`, the BLEP list, `remainder`) are functions of the
+voice (sample window, position, its own Paula state) and the scalar arguments alone. -/
+theorem C14_paula_adds (v : PVoice) (a : PArgs) (buf : Buf) :
+    (prun v a buf).1 = addInto buf (pcontribAcc v a) ∧ (prun v a buf).2 = pstateAfter v a := by
+  rw [prun_eq]; exact ⟨rfl, rfl⟩
+
+/-- **Silence**: levels 0 ⇒ a Paula kernel leaves every buffer unchanged (the Paula state still advances). -/
+theorem C14_paula_silence (v : PVoice) (a : PArgs) (hl : a.vl = 0) (hr : a.vr = 0) (buf : Buf) :
+    (prun v a buf).1 = buf := by
+  have hz : ∀ w ∈ pcontrib v a, w = 0 := ploop_zero v a hl hr a.count (PSt.init v)
+  have : pcontribAcc v a = zeros (pcontrib v a).length := by
+    unfold pcontribAcc zeros
+    apply List.ext_getElem
+    · simp
+    · intro i h1 h2
+      simp only [List.getElem_map, List.getElem_replicate]
+      rw [hz _ (List.getElem_mem _)]
+      rfl
+  rw [(C14_paula_adds v a buf).1, this, addInto_zeros]
+
+/-- **Bound**: every word a Paula kernel adds is within `±(32768 · 256 · L)` for levels within `±L`
+(`output_sample` clamps to 16 bits, the kernels scale the level by 2^8). -/
+theorem C14_paula_bound (v : PVoice) (a : PArgs) (L : Int) (hvl : -L ≤ a.vl ∧ a.vl ≤ L)
+    (hvr : a.stereoOut = true → -L ≤ a.vr ∧ a.vr ≤ L) :
+    ∀ w ∈ pcontrib v a, -(32768 * (L * 256)) ≤ w ∧ w ≤ 32768 * (L * 256) :=
+  ploop_bound v a L hvl hvr a.count (PSt.init v)
+
+/-- **Mirror**: exchanging `vl` and `vr` exchanges the two words of every frame and leaves the same Paula state. -/
+theorem C14_paula_mirror (v : PVoice) (a : PArgs) (ho : a.stereoOut = true) :
+    pcontrib v a.mirror = swapPairs (pcontrib v a) ∧ pstateAfter v a.mirror = pstateAfter v a := by
+  unfold pcontrib pstateAfter
+  have hc : a.mirror.count = a.count := rfl
+  rw [hc, ploop_mirror v a ho]
+  exact ⟨rfl, rfl⟩
+
+set_option maxRecDepth 100000 in
+/-- non-trivial instance: three output frames at 22050 Hz from a state with two live BLEPs -/
+example :
+    let v : PVoice := {
+      smp := fun i => if i % 2 = 0 then 100 else -90, pos := 3, frac := 1000, end_ := 40,
+      st := { glob := 17, bleps := [(30, 5), (-12, 300)], rem := ⟨5660052559044403, -45⟩, fdiv := ⟨5660052559044403, -45⟩ } }
+    let a : PArgs := { count := 3, vl := 40, vr := 7, step := 40000, stereoOut := true, tab := true }
+    pcontrib v a.mirror = swapPairs (pcontrib v a) ∧ pcontrib v a ≠ swapPairs (pcontrib v a) ∧
+    (prun v { a with vl := 0, vr := 0 } [5#32, 6#32, 7#32, 8#32, 9#32, 10#32, 11#32]).1 = [5#32, 6#32, 7#32, 8#32, 9#32, 10#32, 11#32] := by
+  decide
+
+end Xmp.MixKernel.Paula
+
+/-! ## Any mixture of real kernel calls superposes -/
+namespace Xmp.MixKernel
+open Xmp.MixLinear
+
+/-- **Superposition for every kernel of the mixer, Paula included**: a tick produced by any sequence of
+operations each of which only adds its own contribution (kernel calls `Call.exec` — `C14_kernel_adds` —
+and Paula kernel calls — `C14_paula_adds` — at any offsets) is the tick of the contributions, hence the
+wrapping sum of the solo mixes, in any order (`C14_superposition`, `C14_superposition_perm`). -/
+theorem C14_adders_superpose (n : Nat) (ops : List ((Buf → Buf) × Buf)) (h : ∀ p ∈ ops, ∀ b, p.1 b = addInto b p.2) :
+    ops.foldl (fun b p => p.1 b) (zeros n) = tick n (ops.map (·.2)) := by
+  simp only [tick, List.foldl_map]
+  generalize zeros n = b0
+  induction ops generalizing b0 with
+  | nil => rfl
+  | cons p ops ih =>
+    simp only [List.foldl]
+    rw [h p List.mem_cons_self b0]
+    exact ih (fun q hq => h q (List.mem_cons_of_mem _ hq)) _
+
+/-- a Paula kernel call at buffer offset `off` is such an operation -/
+theorem C14_paula_is_adder (v : Paula.PVoice) (a : Paula.PArgs) (off : Nat) (b : Buf) :
+    b.take off ++ (Paula.prun v a (b.drop off)).1 = addInto b (zeros off ++ Paula.pcontribAcc v a) := by
+  rw [Paula.prun_eq, addInto_append_split, zeros_length, addInto_zeros]
+
+end Xmp.MixKernel
